@@ -614,3 +614,18 @@ class SQuant:
 
     def __bool__(self):
         raise ConcretizeError('bool() of quantified condition')
+
+
+class SRatio:
+    """exact quotient num / den of a symbolic integer and a positive constant (Python true division of
+    ints, treated as an exact rational: floats are exact for the magnitudes that occur, stated assumption)"""
+
+    def __init__(self, num, den):
+        self.num = num
+        self.den = den
+
+    def ceil(self):
+        return (self.num + (self.den - 1)) // self.den
+
+    def floor(self):
+        return self.num // self.den
